@@ -88,7 +88,7 @@ func runC07(cfg *config) error {
 		fail := func(kind, detail string) {
 			if len(res.Violations) < 6 {
 				res.Violations = append(res.Violations, Violation{Kind: kind, Detail: fmt.Sprintf("program %d: %s", i, detail), Replay: map[string]any{"seed": cfg.seed, "program": i, "calls": prog},
-				Sig: map[string]any{"splits_surrogate_pair": splitSurrogate}})
+					Sig: map[string]any{"splits_surrogate_pair": splitSurrogate}})
 			}
 			res.count("fail." + kind)
 		}
